@@ -409,6 +409,34 @@ pub fn key(kind: u8) -> Object {
     }
 }
 
+pub fn ref_key_eq(a: &Object, b: &Object) -> bool {
+    match (a, b) {
+        (Object::Integer(x), Object::Integer(y)) => *x == *y,
+        (Object::Integer(x), Object::Float(y)) => (*x as f64) == *y,
+        (Object::Float(x), Object::Integer(y)) => *x == (*y as f64),
+        (Object::Float(x), Object::Float(y)) => *x == *y,
+        (Object::Byte(x), Object::Byte(y)) => *x == *y,
+        (Object::Char(x), Object::Char(y)) => *x == *y,
+        (Object::Bool(x), Object::Bool(y)) => *x == *y,
+        (Object::Null, Object::Null) => true,
+        (Object::Str(x), Object::Str(y)) => {
+            let (p, q) = (x.as_bytes(), y.as_bytes());
+            if p.len() != q.len() {
+                false
+            } else {
+                let mut same = true;
+                let mut i = 0;
+                while i < p.len() {
+                    same &= p[i] == q[i];
+                    i += 1;
+                }
+                same
+            }
+        }
+        _ => false,
+    }
+}
+
 fn stream(o: &Object) -> Rec {
     let mut r = Rec::new();
     o.hash(&mut r);
@@ -423,6 +451,9 @@ pub fn key_eq_hash(k1: u8, k2: u8) {
     assert!(a.is_a_valid_key() && b.is_a_valid_key(), "VERIF: scalar or string rejected as a map key");
     let e = a == b;
     assert!(e == (b == a), "VERIF: == is not symmetric");
+    // `==` is the reference the property is stated against; pin it to the language's definition
+    // (same-kind value equality, Integer vs Float as doubles, nothing else equal across kinds)
+    assert!(e == ref_key_eq(&a, &b), "VERIF: key equality differs from the language's ==");
     let (ra, rb) = (stream(&a), stream(&b));
     assert!(!ra.overflow && !rb.overflow, "VERIF: recorder overflow (harness bound)");
     if e {
